@@ -270,9 +270,18 @@ def replay_file(path: str):
     if err is not None:
         return False, "harness error: " + err, None, data
     want = data["violation"]["sig"]
-    for v in own_violations(spec, res):
+    vs = own_violations(spec, res)
+    for v in vs:
         if v.sig == want:
             return True, v.detail, res.digest, data
+    if vs and os.environ.get("VERIF_ADOPT_OTHER"):
+        # from a clean process the same schedule violates the property in another way: adopt that
+        v = vs[0]
+        data["violation"] = {"clause": v.clause, "sig": v.sig, "detail": v.detail, "digest": res.digest}
+        data["trace"] = list(res.trace)
+        with open(path, "w") as f:
+            json.dump(data, f, indent=1, default=str)
+        return True, v.detail, res.digest, data
     return False, "violation not reproduced", res.digest, data
 
 
@@ -318,9 +327,13 @@ def _replay_in_fresh_process_old(path: str) -> Tuple[bool, str]:
     return ok, p.stdout[-2000:] + p.stderr[-2000:]
 
 
-def replay_in_fresh_process(path: str, want_digest=True):
+def replay_in_fresh_process(path: str, want_digest=True, adopt=False):
     env = dict(os.environ)
     env["PYTHONHASHSEED"] = "0"
+    if adopt:
+        env["VERIF_ADOPT_OTHER"] = "1"
+    else:
+        env.pop("VERIF_ADOPT_OTHER", None)
     p = subprocess.run([sys.executable, os.path.join(VERIF, "run_check.py"), "--replay", path],
                        capture_output=True, text=True, timeout=300, env=env)
     ok = p.returncode == 1 and "VIOLATION property=" in p.stdout
@@ -474,8 +487,13 @@ def run_property(prop: str, tier: str, base_seed: int, workers: int, budget_s: f
             tried += 1
             path = os.path.join(rdir, f"{prop}-{d['seed']}-{tag}.json")
             write_replay_from_summary(spec, d, v, path)
-            ok, out, digest = replay_in_fresh_process(path, want_digest=False)
+            ok, out, digest = replay_in_fresh_process(path, want_digest=False, adopt=True)
             if ok:
+                with open(path) as f:
+                    adopted = json.load(f)["violation"]
+                if adopted["sig"] != sig:
+                    v = dict(v, clause=adopted["clause"], sig=adopted["sig"], detail=adopted["detail"])
+                    d = dict(d, adopted=True)
                 chosen = (d, v, path)
                 break
             try:
@@ -486,9 +504,10 @@ def run_property(prop: str, tier: str, base_seed: int, workers: int, budget_s: f
             d, v, path = chosen
             values = d["choices"]
             forced = d.get("forced")
+            sig_here = v["sig"]
             # minimise in this process when the run reproduces here too
             res, err, ch = run_values(spec, values, forced)
-            here = any(x.sig == sig for x in (own_violations(spec, res) if res is not None else []))
+            here = (not d.get("adopted")) and any(x.sig == sig for x in (own_violations(spec, res) if res is not None else []))
             if here:
                 mvals, evals, ok = minimise(spec, values, sig, forced=forced)
                 res2, err2, ch2 = run_values(spec, mvals, forced)
@@ -506,7 +525,8 @@ def run_property(prop: str, tier: str, base_seed: int, workers: int, budget_s: f
                         reported += 1
                         done = True
             if not done:
-                write_replay_from_summary(spec, d, v, path)
+                if not d.get("adopted"):
+                    write_replay_from_summary(spec, d, v, path)
                 if settle_replay(path):
                     print(f"violation: {v['clause']}: {v['detail']}")
                     print(f"  seed={d['seed']} (not minimised: only the original schedule reproduces from a clean process)")
